@@ -1022,7 +1022,7 @@ ECP5_F2 = ("ECP5PLL.compute_config with all 4 outputs in use accepts an output a
 
 def c_ecp5_full(mode):
     """all four outputs requested: one of them (index j, rigid) must close the feedback loop: d*_j = clkofb_div*.
-    mode 'fb0'     : j = 0                                                              -> finding clause F1 (expected to fail)
+    mode 'fb0'     : j = 0 and d*_0 is the smallest divider that meets output 0            -> ens.complete (a listed finding until fix b1532ac)
     mode 'first'   : j >= 1 and d*_j is the smallest divider that meets output j (the next smaller one overshoots f_j*(1+m_j)) -> ens.complete
     mode 'nonfirst': j >= 1, no such restriction                                        -> finding clause F2 (expected to fail)"""
     cls = lattice_ecp5.ECP5PLL; nout = cls.nclkouts_max; label = f"ECP5PLL(nout={nout},{mode}).compute_config"
@@ -1038,7 +1038,7 @@ def c_ecp5_full(mode):
         for n, (f, m) in enumerate(reqs):
             d = kofb if n == j else _member_decl(f"W_d{n}", pll.clko_div_range)
             _assume(_within(vco / _r(d), f, m)); wd[n] = d; terms[f"W_d{n}"] = d.t
-        if mode == "first":
+        if mode in ("first", "fb0"):       # fb0 (feedback through output 0) was refused outright before fix b1532ac; now the same theorem as the other outputs
             f, m = reqs[j]
             _assume(z3.Or(kofb.t == pll.clko_div_range[0], vco / (_r(kofb) - 1) > f.t * (1 + m.t)))
         specs = {"clki_div": dict(witness=lambda vc, L: ki), "clkofb_div": dict(witness=lambda vc, L: kofb), "clkfb_div": dict(witness=lambda vc, L: kf), "d": dict(witness=lambda vc, L: wd[L["n"]])}
@@ -1053,11 +1053,11 @@ def c_ecp5_full(mode):
         return ("refused-though-a-setting-exists" if cfg is None and ex is not None else "ok",
                 f"ECP5PLL clkin={fin!r} outs={outs!r}: compute_config {'raised ValueError' if cfg is None else 'returned'}; independent exact search over the declared ranges: {ex}")
     out = prove_complete(label, setup, cls.compute_config, ["clki_div", "clkofb_div", "clkfb_div", "d"], replay=replay)
-    if mode != "first":
+    if mode == "nonfirst":          # (mode fb0 was a finding until fix: "ECP5PLL accepts feedback through output 0 when all outputs are used"; now a regular ens.complete)
         for r_ in out:
             if r_["name"].endswith(".ens.complete"):
-                r_["name"] = r_["name"][:-len("ens.complete")] + ("finding.complete.feedback-through-output-0" if mode == "fb0" else "finding.complete.first-fit-divider-hides-feedback-output")
-                r_["kind"] = "finding-witness"; r_["what"] = ECP5_F1 if mode == "fb0" else ECP5_F2
+                r_["name"] = r_["name"][:-len("ens.complete")] + "finding.complete.first-fit-divider-hides-feedback-output"
+                r_["kind"] = "finding-witness"; r_["what"] = ECP5_F2
     return dict(results=out, functions=[MODP + "lattice_ecp5.ECP5PLL.compute_config"], samples=[dict(function="ECP5PLL.compute_config", theorem="ens.complete", outputs=4, mode=mode)])
 
 def c_ecp5_native_findings():
@@ -1070,7 +1070,7 @@ def c_ecp5_native_findings():
             out.append(res(name, "finding-witness", VIOLATED if wrong else PROVED, 0, "executed", what=what, info=f"clkin={fin} outs={outs}: {'refused' if cfg is None else 'returned'}; independent exact search: {ex}"))
         else:
             out.append(res(name, "bounded", BOUNDED_OK if not wrong else VIOLATED, 0, "executed", info=f"clkin={fin} outs={outs}: {'refused' if cfg is None else 'returned'}; independent exact search: {ex}"))
-    one("finding.complete.feedback-through-output-0.native(clkin=10MHz,outs=50/25/12.5/6.25MHz@1e-2)", ECP5_F1, 10e6, [(50e6, 1e-2), (25e6, 1e-2), (12.5e6, 1e-2), (6.25e6, 1e-2)], True)
+    one("ens.complete.native(clkin=10MHz,outs=50/25/12.5/6.25MHz@1e-2) (feedback possible through output 0 only; refused before the fix)", "", 10e6, [(50e6, 1e-2), (25e6, 1e-2), (12.5e6, 1e-2), (6.25e6, 1e-2)], False)
     one("ens.complete.native(clkin=10MHz,outs=25/50/12.5/6.25MHz@1e-2) (control: outputs 0 and 1 swapped)", "", 10e6, [(25e6, 1e-2), (50e6, 1e-2), (12.5e6, 1e-2), (6.25e6, 1e-2)], False)
     one("finding.complete.first-fit-divider-hides-feedback-output.native(clkin=10MHz,outs=64@1e-3,10@2e-2,32@1e-3,16MHz@1e-3)", ECP5_F2, 10e6, [(64e6, 1e-3), (10e6, 2e-2), (32e6, 1e-3), (16e6, 1e-3)], True)
     one("ens.complete.native(clkin=10MHz,outs=64/10/32/16MHz@1e-3) (control: margin of output 1 tightened)", "", 10e6, [(64e6, 1e-3), (10e6, 1e-3), (32e6, 1e-3), (16e6, 1e-3)], False)
